@@ -197,6 +197,15 @@ def gen_b324(g):
         g.add("b324-crypt", "crypt.mksalt", [], [("method", v)], {"B324": None}, note="unknown/wrongtype method")
     g.add("b324-crypt", "crypt.crypt", ["'pw'"], [], {"B324": None}, note="default salt")
     g.add("b324-crypt", "crypt.mksalt", [], [], {"B324": None}, note="default method")
+    # near misses: the same function NAME on another module / another function of the keyed module (found by tools/mutation: `'crypt' in qualname and func in (...)`
+    # mutated to `or` survived every check)
+    for src in ("import crypt, passlib\npasslib.mksalt(crypt.METHOD_MD5)\n", "import crypt\nother.crypt('pw', crypt.METHOD_MD5)\n", "import crypt\ncrypt.other(crypt.METHOD_MD5)\n",
+                "import crypt\nmksalt(crypt.METHOD_CRYPT)\n", "import mylib\nmylib.md5(b'x')\n", "import hashlibx\nhashlibx.new('md5')\n", "import hashlib\nhashlib.newx('md5')\n",
+                "import hashlib\nobj.hashlib_new('md5')\n", "import crypt\nx.crypt.method('pw', 'METHOD_MD5')\n"):
+        ln = src.count("\n")
+        # a callee whose OWN name is `crypt` always has "crypt" among its dotted components: bandit keys on that, the property does not say — no opinion there
+        exp = {} if "other.crypt(" in src else {"B324": None}
+        g.add_raw("b324-nearmiss", src, ln, ln, exp, note=src.splitlines()[-1])
     _ = all_ids
 
 
